@@ -63,7 +63,8 @@ def check_coroutine(ctx, rep, name, label, tbl, depth=0, seen=None):
                 held.add(a)
         carriers = sorted(a for a in held if a in tbl["data_carriers"] and a != "alloc::string::String")
         unsafe = sorted(a for a in held if a in tbl["unsafe"])
-        unknown = sorted(a for a in held if ("tokio::io::util::" in a or "tokio::time::" in a) and a not in tbl["safe"] and a not in tbl["unsafe"] and a not in tbl["transparent"])
+        unknown = sorted(a for a in held if ("tokio::io::util::" in a or "tokio::time::" in a) and a not in tbl["safe"] and a not in tbl["unsafe"] and a not in tbl["transparent"]
+                         and a not in tbl.get("inert", ()))
         rep.check("R19.1", key + ":no-data-parked", not carriers,
                   "while %s is suspended at `%s.await` it holds %s by value: dropping the read future there (a select! tick) destroys data already removed from the connection buffer" % (label, aw, carriers),
                   loc, sample={"coroutine": label, "await": aw, "saved": [s["ty"][:90] for s in v["saved"]]})
